@@ -47,9 +47,10 @@ structure St where
   /-- class attributes of the reader classes (survive a failed reload) -/
   cu : Option C16.CU := none
   cname : Option Str := none
-  /-- text of users.conf / channels.conf / ignores.conf as last written (`none` = no file yet):
-  what a reload *without* a preceding flush (SIGHUP, `config reload`) reads -/
-  ufile : Option Str := none
+  /-- users.conf / channels.conf / ignores.conf as last written (`none` = no file yet): what a
+  reload *without* a preceding flush (SIGHUP, `config reload`) reads.  For users.conf the records
+  that were written are kept (the text is `C16.dumpUsers` of them). -/
+  usaved : Option C16.UsersDb := none
   cfile : Option Str := none
   ifile : Option Str := none
 deriving Repr
@@ -101,7 +102,7 @@ def putUser (st : St) (id : Nat) (u : C16.User) : St := { st with users := C16.d
 
 /-- `users.flush()` (setUser, newUser, delUser end with it) -/
 def flushU (st : St) : St :=
-  { st with ufile := some (C16.dumpUsers { users := st.users, nextId := st.nextId }) }
+  { st with usaved := some { users := st.users, nextId := st.nextId } }
 
 /-- `channels.flush()` (the end of setChannel) -/
 def flushC (st : St) : St := { st with cfile := some (C16.dumpChannels st.channels) }
@@ -295,9 +296,9 @@ def removeCaps (caps : List Str) : List Str → List Str × Bool × Bool   -- (c
 def envOf (cfg : Cfg) : C16.Env := { hm := cfg.hm, lower := cfg.lower, now := 0 }
 
 /-- `users.reload()` on a given file text; a successful load ends with a flush -/
-def reloadUsersFrom (cfg : Cfg) (st : St) (text : Str) : St :=
-  let ru := C16.loadUsers (envOf cfg) st.cu text
-  let st1 := { st with users := ru.1.db.users, nextId := ru.1.db.nextId, auth := [], cu := ru.1.cu, ufile := some text }
+def reloadUsersFrom (cfg : Cfg) (st : St) (db : C16.UsersDb) : St :=
+  let ru := C16.loadUsers (envOf cfg) st.cu (C16.dumpUsers db)
+  let st1 := { st with users := ru.1.db.users, nextId := ru.1.db.nextId, auth := [], cu := ru.1.cu, usaved := some db }
   if ru.2.isNone then flushU st1 else st1
 
 def reloadChannelsFrom (cfg : Cfg) (st : St) (text : Str) : St :=
@@ -306,7 +307,7 @@ def reloadChannelsFrom (cfg : Cfg) (st : St) (text : Str) : St :=
   if rc.2.isNone then flushC st1 else st1
 
 def flushReloadSt (cfg : Cfg) (st : St) : St :=
-  let st1 := reloadUsersFrom cfg st (C16.dumpUsers { users := st.users, nextId := st.nextId })
+  let st1 := reloadUsersFrom cfg st { users := st.users, nextId := st.nextId }
   let st2 := reloadChannelsFrom cfg st1 (C16.dumpChannels st1.channels)
   let itext := C16.dumpIgnores (envOf cfg) st2.ignores
   { st2 with ignores := C16.loadIgnores itext, ifile := some itext }
@@ -315,8 +316,8 @@ def flushReloadSt (cfg : Cfg) (st : St) : St :=
 A missing users/channels file leaves that database empty, a missing ignores file leaves the
 ignores as they are. -/
 def reloadU (cfg : Cfg) (st : St) : St :=
-  match st.ufile with
-  | some t => reloadUsersFrom cfg st t
+  match st.usaved with
+  | some db => reloadUsersFrom cfg st db
   | none => { st with users := [], nextId := 0, auth := [] }
 
 def reloadI (st : St) : St :=
@@ -411,7 +412,7 @@ def doRegister (cfg : Cfg) (st : St) (pfx name pw : Str) : St × Bool :=
       let st1 : St := { st with nextId := id, users := st.users ++ [(id, u)] }
       -- newUser() saves the still empty account; the final setUser saves the complete one
       if wild then
-        ({ st1 with ufile := some (C16.dumpUsers { users := st.users ++ [(id, { hashed := true })], nextId := id }) }, false)
+        ({ st1 with usaved := some { users := st.users ++ [(id, { hashed := true })], nextId := id } }, false)
       else (flushU st1, true)
 
 /-- body of a command once the gate has let it through; `true` = replied with success -/
